@@ -137,8 +137,9 @@ func (s *socket) SetOption(name string, value interface{}) error {
 			s.Lock()
 			s.resizeDiscards = v
 			s.Unlock()
+			return nil
 		}
-		return nil
+		return protocol.ErrBadValue
 	}
 
 	return protocol.ErrBadOption
